@@ -7,6 +7,7 @@
 EXTENDS Integers, Sequences, FiniteSets, TLC
 
 Pow8(k)      == 8^k
+Bit2(v, b)   == (v \div (2^b)) % 2 = 1
 Digit(a, k)  == (a \div Pow8(k)) % 8
 NDigits(a)   == IF a = 0 THEN 0 ELSE IF a < 8 THEN 1 ELSE IF a < 64 THEN 2 ELSE IF a < 512 THEN 3
                 ELSE IF a < 4096 THEN 4 ELSE IF a < 32768 THEN 5 ELSE 6
